@@ -1,6 +1,7 @@
-import ColoVerif.Driver.DetPlaceIO
+import ColoVerif.Driver.DetValueIO
 /-
-Driver for C05: same protocol as C02 (history replay on the `DetPlace` model) plus the `hpwl`
-queries (protocol in ColoVerif/Driver/DetPlaceIO.lean).
+Driver for C05: history replay on the whole `DetailedPlacer` model (placement + the two incremental
+net models) with `val` / `hp` / `hpwl` queries (protocol in ColoVerif/Driver/DetValueIO.lean, which
+extends the C02 protocol of ColoVerif/Driver/DetPlaceIO.lean).
 -/
-def main : IO Unit := Driver.run Driver.DetPlaceIO.stepLine {}
+def main : IO Unit := Driver.run Driver.DetValueIO.stepLine {}
